@@ -2616,3 +2616,434 @@ Proof.
   intros H Hc. apply run_op_step in H. destruct H as (evs & Hst & Hcl).
   exists evs. split; [apply Hst|]. exact (Hcl Hc).
 Qed.
+
+(* ------------------------------------------------------------------------------------------ *)
+(* 14. read() as the call that pushes the pending frame out                                    *)
+(* ------------------------------------------------------------------------------------------ *)
+
+Lemma process_frame_cant_read x1 f w1 :
+  can_read (x_state x1) = false ->
+  process_frame x1 f w1 = (RErr (EProtocol ReceivedAfterClosing), x1, w1).
+Proof. intros H. unfold process_frame. cbv zeta. rewrite H. reflexivity. Qed.
+
+(* once reading is over, read_message_frame never returns Ok *)
+Lemma rmf_cant_read x w r x' w' :
+  can_read (x_state x) = false -> read_message_frame x w = (r, x', w') -> forall m, r <> ROk m.
+Proof.
+  intros Hcr. rewrite rmf_unfold.
+  destruct (read_frame _ _ _ _ _) as [[r0 c1] w1].
+  destruct (check_connection_reset r0 (x_state x)) as [r0' s1] eqn:Ec. cbv zeta.
+  apply ccr_cases in Ec.
+  assert (Hs1 : can_read s1 = false) by (destruct Ec as [[_ ->]|(_ & _ & _ & ->)]; auto).
+  destruct r0' as [[f|]|e|s|]; cbn [x_state set_state].
+  - rewrite process_frame_cant_read by exact Hs1. intros H; inversion H; discriminate.
+  - destruct s1; intros H; inversion H; discriminate.
+  - intros H; inversion H; discriminate.
+  - intros H; inversion H; discriminate.
+  - intros H; inversion H; discriminate.
+Qed.
+
+Lemma can_read_terminated s : s = Terminated -> can_read s = false.
+Proof. intros ->. reflexivity. Qed.
+
+(* read() ends in Terminated only if it started there, nothing is left to send, or the transport ended *)
+Lemma read_loop_term fuel : forall x w r x' w',
+  read_loop fuel x w = (r, x', w') ->
+  exists evs, w_log w' = w_log w ++ evs /\ term_ok x x' evs.
+Proof.
+  induction fuel as [|fuel IH]; intros x w r x' w' H.
+  - cbn in H. inversion H; subst. exists []. split; [now rewrite app_nil_r|]. intros Ht; now left.
+  - rewrite read_loop_unfold in H.
+    destruct (read_pre x w) as [[r0 x0] w0] eqn:Ep. apply read_pre_spec in Ep.
+    destruct Ep as (evs0 & Heff0 & Hk0 & Hps0 & Hcl0 & Hterm0).
+    destruct r0 as [u|e|s|]; try (inversion H; subst; exists evs0; split; [apply Heff0|exact Hterm0]).
+    destruct (read_message_frame x0 w0) as [[r1 x1] w1] eqn:Em.
+    pose proof Em as Em'. apply rmf_spec in Em'.
+    destruct Em' as (evs1 & Heff1 & Hq1 & Hw1 & Ho1 & Hwrs1 & Hfls1 & Hcl1 & Hcases1).
+    assert (Hlog01 : w_log w1 = w_log w ++ (evs0 ++ evs1)).
+    { rewrite (eff_log _ _ _ _ _ Heff1), (eff_log _ _ _ _ _ Heff0). now rewrite app_assoc. }
+    (* if x1 is Terminated and this iteration did not end the transport, x0 was Terminated *)
+    assert (Hback : x_state x1 = Terminated -> x_state x0 = Terminated \/ transport_ended evs1).
+    { intros Ht. destruct Hcases1 as [(_ & [Hs|(_ & He & _)] & _)|[(_ & p & _ & Hs & _)|[(_ & c & _ & Hs & _)|(_ & c & _ & Hs & _)]]];
+        try congruence; [left; congruence|now right]. }
+    assert (Hslot1 : x_state x0 = Terminated -> x_additional x1 = x_additional x0).
+    { intros Ht. destruct Hcases1 as [(Ha & _)|[(Hs & _)|[(Hs & _)|(Hs & _)]]]; congruence. }
+    assert (Hret : x_state x1 = Terminated ->
+                   x_state x = Terminated \/ clean x1 \/ transport_ended (evs0 ++ evs1)).
+    { intros Ht. destruct (Hback Ht) as [Ht0|He]; [|right; right; now apply ended_app_r].
+      destruct (Hterm0 Ht0) as [?|[[Hs Ho]|?]]; [now left| |right; right; now apply ended_app_l].
+      right; left. split; [rewrite (Hslot1 Ht0); exact Hs|congruence]. }
+    destruct r1 as [[m|]|e|s|]; try (inversion H; subst; exists (evs0 ++ evs1); split; [exact Hlog01|exact Hret]).
+    apply IH in H. destruct H as (evs2 & Hlog2 & Hterm2).
+    exists ((evs0 ++ evs1) ++ evs2). split; [rewrite Hlog2, Hlog01, <- !app_assoc; reflexivity|].
+    intros Ht. destruct (Hterm2 Ht) as [Ht1|[?|?]]; [|now (right; left)|right; right; now apply ended_app_r].
+    (* x1 Terminated while the loop went on: impossible unless the transport ended just now *)
+    destruct (Hback Ht1) as [Ht0|He]; [|right; right; apply ended_app_l; now apply ended_app_r].
+    exfalso. eapply (rmf_cant_read x0 w0); [now apply can_read_terminated|exact Em|reflexivity].
+Qed.
+
+(* progress states: P0 (pending, transport accepts), Pmid (parked, buffer drained), on_wire (done) *)
+Definition P0 (base : list frame) (g : frame) (x : ctx) (w : world) : Prop :=
+  fifo x w /\ pend base g x (w_log w) /\ transport_accepts x w.
+
+Definition Pmid (base : list frame) (g : frame) (x : ctx) (w : world) : Prop :=
+  fifo x w /\ pend base g x (w_log w) /\ c_out (x_codec x) = [] /\
+  exists f, x_additional x = Some f /\ sent_len (x_role x) f <= c_max_out (x_codec x) /\
+            exists wr, drain (w_wrs w) (sent_len (x_role x) f) = Some wr.
+
+Lemma flush_Pmid base g x w r x' w' :
+  Pmid base g x w -> flush x w = (r, x', w') -> on_wire base g x' w'.
+Proof.
+  intros (Hf & Hp & Ho & f & Hs & Hfit & wr & Hd) H.
+  eapply one_flush_delivers; eauto. rewrite Hs, Ho. change (blen (@nil N)) with 0.
+  rewrite N.add_0_l. split; [lia|eauto].
+Qed.
+
+Lemma flush_P0 base g x w r x' w' :
+  P0 base g x w -> flush x w = (r, x', w') -> on_wire base g x' w' \/ Pmid base g x' w'.
+Proof.
+  intros (Hf & Hp & Hta) H. unfold transport_accepts in Hta.
+  destruct (x_additional x) as [f|] eqn:Hs.
+  - destruct Hta as (Hfit & (wa & Hda) & (wb & wc & Hdb & Hdc)).
+    destruct (N.le_gt_cases (sent_len (x_role x) f + blen (c_out (x_codec x))) (c_max_out (x_codec x)))
+      as [Hroom|Hfull].
+    + left. eapply one_flush_delivers; eauto. rewrite Hs. eauto.
+    + right.
+      destruct (flush_noroom _ _ _ _ _ _ _ Hs Hfull Hdb H) as
+        ((k1 & evs1 & Hlog1 & Hq1 & Hw1 & Hs1 & Ho1 & Hr1 & Hm1 & Hst1) & Hwrs1).
+      unfold Pmid, fifo in *. rewrite Hlog1, wire_app, queued_app, Hq1, Hw1, Ho1, !app_nil_r.
+      split; [exact Hf|]. split.
+      * destruct Hp as (new & Hq & Hp). exists new. rewrite queued_app, Hq1, app_nil_r.
+        split; [exact Hq|]. destruct Hp as [(f0 & Hf0 & Hsg)|Hin]; [|now right].
+        left. exists (mask_for (x_role x) f k1). split; [exact Hs1|].
+        rewrite strip_mask_for. congruence.
+      * split; [reflexivity|]. exists (mask_for (x_role x) f k1).
+        rewrite Hr1, sent_len_mask_for, Hm1, Hwrs1. eauto.
+  - left. eapply one_flush_delivers; eauto. rewrite Hs. exact Hta.
+Qed.
+
+(* once everything is on the wire, later calls on a connection that is no longer Active change nothing *)
+Lemma on_wire_ext base g x w x' w' evs :
+  on_wire base g x w -> w_log w' = w_log w ++ evs -> queued evs = [] -> wire evs = [] ->
+  clean x' -> on_wire base g x' w'.
+Proof.
+  intros (_ & Hw & Hq) Hlog Hqe Hwe Hc. split; [exact Hc|].
+  rewrite Hlog, wire_app, queued_app, Hqe, Hwe, !app_nil_r. auto.
+Qed.
+
+Lemma flush_on_wire base g x w r x' w' :
+  on_wire base g x w -> flush x w = (r, x', w') -> on_wire base g x' w'.
+Proof.
+  intros Hon H. destruct (flush_clean _ _ _ _ _ (proj1 Hon) H) as (Hc & evs & Hlog & Hq & Hw).
+  eapply on_wire_ext; eauto.
+Qed.
+
+Lemma read_pre_clean x w r0 x0 w0 :
+  clean x -> read_pre x w = (r0, x0, w0) ->
+  clean x0 /\ exists evs, w_log w0 = w_log w ++ evs /\ queued evs = [] /\ wire evs = [].
+Proof.
+  intros Hc. unfold read_pre.
+  destruct ((match x_additional x with Some _ => true | None => false end) || x_unflushed x).
+  - destruct (flush x w) as [[r x'] w'] eqn:Ef.
+    destruct (flush_clean _ _ _ _ _ Hc Ef) as (Hc' & Hevs).
+    destruct r as [u|e|s|]; try (intros H; inversion H; subst; split; assumption).
+    destruct e; try (intros H; inversion H; subst; split; assumption).
+    destruct k; intros H; inversion H; subst; split; assumption.
+  - destruct (role_eqb (x_role x) Server && negb (can_read (x_state x))).
+    + destruct (write_out_buffer (x_codec x) w) as [[rw c'] w'] eqn:E.
+      apply write_out_buffer_spec in E.
+      destruct E as (out' & evs & Hc' & Hlog & _ & _ & _ & Hq & Hw & _ & _ & Hnil & _).
+      destruct Hc as [Hs Ho]. destruct (Hnil Ho) as (-> & _ & ->).
+      rewrite Ho in Hw. cbn in Hw. subst out'.
+      intros H; inversion H; subst. split; [split; [exact Hs|reflexivity]|].
+      exists []. auto.
+    + intros H; inversion H; subst. split; [exact Hc|]. exists []. rewrite app_nil_r. auto.
+Qed.
+
+(* read_message_frame on a connection that is no longer Active: slot, buffer, oracle untouched *)
+Lemma rmf_passive x w r x' w' :
+  x_state x <> Active -> read_message_frame x w = (r, x', w') ->
+  x_state x' <> Active /\ x_additional x' = x_additional x /\
+  c_out (x_codec x') = c_out (x_codec x) /\ c_max_out (x_codec x') = c_max_out (x_codec x) /\
+  x_role x' = x_role x /\ w_wrs w' = w_wrs w /\
+  exists evs, w_log w' = w_log w ++ evs /\ queued evs = [] /\ wire evs = [].
+Proof.
+  intros Hna H. apply rmf_spec in H.
+  destruct H as (evs & Heff & Hq & Hw & Ho & Hwrs & _ & _ & Hcases).
+  split; [intros Ha; apply Hna; now apply (eff_act _ _ _ _ _ Heff)|].
+  split.
+  - destruct Hcases as [(Ha & _)|[(Hs & _)|[(Hs & _)|(_ & c & _ & _ & Ha)]]]; congruence.
+  - splits; auto; try apply Heff. exists evs. split; [apply Heff|auto].
+Qed.
+
+Lemma rmf_on_wire base g x w r x' w' :
+  x_state x <> Active -> on_wire base g x w -> read_message_frame x w = (r, x', w') ->
+  on_wire base g x' w'.
+Proof.
+  intros Hna Hon H. destruct (rmf_passive _ _ _ _ _ Hna H) as
+    (_ & Hs & Ho & _ & _ & _ & evs & Hlog & Hq & Hw).
+  eapply on_wire_ext; eauto. destruct Hon as ((Hs0 & Ho0) & _). split; congruence.
+Qed.
+
+Lemma rmf_Pmid base g x w r x' w' :
+  x_state x <> Active -> Pmid base g x w -> read_message_frame x w = (r, x', w') ->
+  Pmid base g x' w'.
+Proof.
+  intros Hna (Hf & Hp & Ho & f & Hs & Hfit & wr & Hd) H.
+  destruct (rmf_passive _ _ _ _ _ Hna H) as
+    (_ & Hs' & Ho' & Hm' & Hr' & Hw' & evs & Hlog & Hq & Hw).
+  unfold Pmid, fifo in *. rewrite Hlog, wire_app, queued_app, Hq, Hw, Ho', Hm', Hr', Hw', Hs', !app_nil_r.
+  split; [exact Hf|]. split.
+  - destruct Hp as (new & Hqn & Hp). exists new. rewrite queued_app, Hq, app_nil_r, Hs'. auto.
+  - split; [exact Ho|]. exists f. eauto.
+Qed.
+
+Lemma read_pre_na x w r0 x0 w0 :
+  read_pre x w = (r0, x0, w0) -> x_state x <> Active -> x_state x0 <> Active.
+Proof.
+  intros H Hna Ha. apply read_pre_spec in H. destruct H as (evs & Heff & _).
+  apply Hna. now apply (eff_act _ _ _ _ _ Heff).
+Qed.
+
+Lemma read_loop_on_wire base g fuel : forall x w r x' w',
+  x_state x <> Active -> on_wire base g x w -> read_loop fuel x w = (r, x', w') ->
+  on_wire base g x' w'.
+Proof.
+  induction fuel as [|fuel IH]; intros x w r x' w' Hna Hon H.
+  - cbn in H. inversion H; subst. exact Hon.
+  - rewrite read_loop_unfold in H.
+    destruct (read_pre x w) as [[r0 x0] w0] eqn:Ep.
+    pose proof (read_pre_na _ _ _ _ _ Ep Hna) as Hna0.
+    destruct (read_pre_clean _ _ _ _ _ (proj1 Hon) Ep) as (Hc0 & evs0 & Hlog0 & Hq0 & Hw0).
+    assert (Hon0 : on_wire base g x0 w0) by (eapply on_wire_ext; eauto).
+    destruct r0 as [u|e|s|]; try (inversion H; subst; exact Hon0).
+    destruct (read_message_frame x0 w0) as [[r1 x1] w1] eqn:Em.
+    pose proof (rmf_on_wire _ _ _ _ _ _ _ Hna0 Hon0 Em) as Hon1.
+    destruct (rmf_passive _ _ _ _ _ Hna0 Em) as (Hna1 & _).
+    destruct r1 as [[m|]|e|s|]; try (inversion H; subst; exact Hon1).
+    eapply IH; eauto.
+Qed.
+
+(* a parked frame: read() starts with flush() *)
+Lemma read_pre_flushes x w :
+  x_additional x <> None \/ x_unflushed x = true ->
+  read_pre x w =
+  let '(r, x', w') := flush x w in
+  match r with
+  | ROk _ => (ROk tt, x', w')
+  | RErr (EIo WouldBlock) => (ROk tt, set_unflushed x' true, w')
+  | _ => (r, x', w')
+  end.
+Proof.
+  intros Hc. unfold read_pre.
+  replace ((match x_additional x with Some _ => true | None => false end) || x_unflushed x) with true;
+    [reflexivity|].
+  destruct Hc as [Hc|Hc]; [destruct (x_additional x); [reflexivity|congruence]|].
+  rewrite Hc. now rewrite orb_true_r.
+Qed.
+
+Lemma Pmid_unflushed base g x w b : Pmid base g x w -> Pmid base g (set_unflushed x b) w.
+Proof. intros H. exact H. Qed.
+
+Lemma on_wire_unflushed base g x w b : on_wire base g x w -> on_wire base g (set_unflushed x b) w.
+Proof. intros H. exact H. Qed.
+
+(* the first thing read() does with something parked or unflushed: the progress of one flush() *)
+Lemma read_pre_progress base g x w r0 x0 w0 :
+  x_additional x <> None \/ x_unflushed x = true ->
+  P0 base g x w -> read_pre x w = (r0, x0, w0) ->
+  on_wire base g x0 w0 \/ Pmid base g x0 w0.
+Proof.
+  intros Hc HP. rewrite (read_pre_flushes _ _ Hc).
+  destruct (flush x w) as [[r x'] w'] eqn:Ef.
+  pose proof (flush_P0 _ _ _ _ _ _ _ HP Ef) as HQ.
+  destruct r as [u|e|s|]; try (intros H; inversion H; subst; exact HQ).
+  destruct e; try (intros H; inversion H; subst; exact HQ).
+  destruct k; intros H; inversion H; subst; exact HQ.
+Qed.
+
+Lemma Pmid_P0 base g x w : Pmid base g x w -> P0 base g x w.
+Proof.
+  intros (Hf & Hp & Ho & f & Hs & Hfit & wr & Hd). split; [exact Hf|]. split; [exact Hp|].
+  unfold transport_accepts. rewrite Hs, Ho. change (blen (@nil N)) with 0.
+  split; [exact Hfit|]. split.
+  - exists wr. now rewrite N.add_0_l.
+  - exists (w_wrs w), wr. split; [apply drain_0|exact Hd].
+Qed.
+
+Lemma read_loop_progress base g fuel : forall x w r x' w',
+  x_state x <> Active -> on_wire base g x w \/ Pmid base g x w ->
+  read_loop fuel x w = (r, x', w') ->
+  on_wire base g x' w' \/ (fuel = O /\ Pmid base g x' w').
+Proof.
+  intros x w r x' w' Hna [Hon|Hmid] H.
+  - left. eapply read_loop_on_wire; eauto.
+  - destruct fuel as [|fuel].
+    + cbn in H. inversion H; subst. right. auto.
+    + left. rewrite read_loop_unfold in H.
+      destruct (read_pre x w) as [[r0 x0] w0] eqn:Ep.
+      pose proof (read_pre_na _ _ _ _ _ Ep Hna) as Hna0.
+      assert (Hon0 : on_wire base g x0 w0).
+      { assert (Hc : x_additional x <> None \/ x_unflushed x = true).
+        { left. destruct Hmid as (_ & _ & _ & f & Hs & _). congruence. }
+        rewrite (read_pre_flushes _ _ Hc) in Ep.
+        destruct (flush x w) as [[r1 x1] w1] eqn:Ef.
+        pose proof (flush_Pmid _ _ _ _ _ _ _ Hmid Ef) as Hon1.
+        destruct r1 as [u|e|s|]; try (inversion Ep; subst; exact Hon1).
+        destruct e; try (inversion Ep; subst; exact Hon1).
+        destruct k; inversion Ep; subst; exact Hon1. }
+      destruct r0 as [u|e|s|]; try (inversion H; subst; exact Hon0).
+      destruct (read_message_frame x0 w0) as [[r1 x1] w1] eqn:Em.
+      pose proof (rmf_on_wire _ _ _ _ _ _ _ Hna0 Hon0 Em) as Hon1.
+      destruct (rmf_passive _ _ _ _ _ Hna0 Em) as (Hna1 & _).
+      destruct r1 as [[m|]|e|s|]; try (inversion H; subst; exact Hon1).
+      eapply read_loop_on_wire; eauto.
+Qed.
+
+(* read() with something parked or unflushed, connection neither Active nor Terminated *)
+Lemma read_P0 base g x w r x' w' :
+  x_state x <> Active -> x_state x <> Terminated ->
+  x_additional x <> None \/ x_unflushed x = true ->
+  P0 base g x w -> read x w = (r, x', w') ->
+  on_wire base g x' w' \/ Pmid base g x' w'.
+Proof.
+  intros Hna Hnt Hc HP. unfold read.
+  destruct (is_terminated (x_state x)) eqn:Et; [destruct (x_state x); try discriminate; congruence|].
+  rewrite read_loop_unfold.
+  destruct (read_pre x w) as [[r0 x0] w0] eqn:Ep.
+  pose proof (read_pre_na _ _ _ _ _ Ep Hna) as Hna0.
+  pose proof (read_pre_progress _ _ _ _ _ _ _ Hc HP Ep) as HQ0.
+  destruct r0 as [u|e|s|]; try (intros H; inversion H; subst; exact HQ0).
+  destruct (read_message_frame x0 w0) as [[r1 x1] w1] eqn:Em.
+  destruct (rmf_passive _ _ _ _ _ Hna0 Em) as (Hna1 & _).
+  assert (HQ1 : on_wire base g x1 w1 \/ Pmid base g x1 w1).
+  { destruct HQ0 as [Hq0|Hq0];
+      [left; exact (rmf_on_wire _ _ _ _ _ _ _ Hna0 Hq0 Em)|right; exact (rmf_Pmid _ _ _ _ _ _ _ Hna0 Hq0 Em)]. }
+  destruct r1 as [[m|]|e|s|]; try (intros H; inversion H; subst; exact HQ1).
+  intros H. destruct (read_loop_progress _ _ _ _ _ _ _ _ Hna1 HQ1 H) as [?|[_ ?]]; auto.
+Qed.
+
+(* read() from the parked-and-drained state *)
+Lemma read_Pmid base g x w r x' w' :
+  x_state x <> Active -> x_state x <> Terminated ->
+  Pmid base g x w -> read x w = (r, x', w') -> on_wire base g x' w'.
+Proof.
+  intros Hna Hnt Hmid. unfold read.
+  destruct (is_terminated (x_state x)) eqn:Et; [destruct (x_state x); try discriminate; congruence|].
+  intros H. destruct (read_loop_progress _ _ _ _ _ _ _ _ Hna (or_intror Hmid) H) as [?|[Hf _]]; auto.
+  discriminate.
+Qed.
+
+Lemma read_on_wire base g x w r x' w' :
+  x_state x <> Active -> on_wire base g x w -> read x w = (r, x', w') -> on_wire base g x' w'.
+Proof.
+  intros Hna Hon. unfold read. destruct (is_terminated (x_state x)).
+  - intros H; inversion H; subst. exact Hon.
+  - intros H. eapply read_loop_on_wire; eauto.
+Qed.
+
+(* flush(), close(), read() *)
+Definition push_call (o : op) : Prop := o = OpFlush \/ (exists c, o = OpClose c) \/ o = OpRead.
+
+(* read() begins with a flush() exactly when a frame is parked or a reply failed to flush earlier *)
+Definition read_pushes (x : ctx) : Prop := x_additional x <> None \/ x_unflushed x = true.
+
+Lemma push_call_cases x o w res x' w' :
+  push_call o -> x_state x <> Active -> run_op x o w = (res, x', w') ->
+  (exists r, flush x w = (r, x', w')) \/ (o = OpRead /\ exists r, read x w = (r, x', w')).
+Proof.
+  intros [->|[(c & ->)| ->]] Hna H.
+  - left. destruct (run_op_flushlike x OpFlush w res x' w') as (r & _ & F); eauto. now left.
+  - left. destruct (run_op_flushlike x (OpClose c) w res x' w') as (r & _ & F); eauto. right; eauto.
+  - right. split; [reflexivity|]. cbn [run_op] in H. destruct (read x w) as [[r x1] w1].
+    inversion H; subst. eauto.
+Qed.
+
+Lemma call_P0 base g x w o res x' w' :
+  x_state x <> Active -> x_state x <> Terminated -> push_call o -> (o = OpRead -> read_pushes x) ->
+  P0 base g x w -> run_op x o w = (res, x', w') ->
+  x_state x' <> Active /\ (on_wire base g x' w' \/ Pmid base g x' w') /\
+  exists evs, w_log w' = w_log w ++ evs /\ term_ok x x' evs.
+Proof.
+  intros Hna Hnt Ho Hrp HP H.
+  destruct (push_call_cases _ _ _ _ _ _ Ho Hna H) as [(r & F)|(-> & r & R)].
+  - split; [eapply flush_state_na; eauto|]. split; [eapply flush_P0; eauto|].
+    apply flush_spec in F. destruct F as (evs & Heff & _ & _ & _ & Hterm).
+    exists evs. split; [apply Heff|exact Hterm].
+  - split; [|split].
+    + apply read_step in R. destruct R as (evs & Hst & _). intros Ha. apply Hna. now apply Hst.
+    + eapply read_P0; eauto. apply Hrp. reflexivity.
+    + unfold read in R.
+      destruct (is_terminated (x_state x)) eqn:Et; [destruct (x_state x); try discriminate; congruence|].
+      eapply read_loop_term; eauto.
+Qed.
+
+Lemma eventually_sent_calls x w base g o1 o2 res1 x1 w1 res2 x2 w2 :
+  reachable x w -> x_state x <> Active -> x_state x <> Terminated ->
+  pend base g x (w_log w) -> transport_accepts x w ->
+  push_call o1 -> push_call o2 -> (o1 = OpRead -> read_pushes x) ->
+  run_op x o1 w = (res1, x1, w1) -> run_op x1 o2 w1 = (res2, x2, w2) ->
+  on_wire base g x2 w2 \/ exists evs, w_log w1 = w_log w ++ evs /\ transport_ended evs.
+Proof.
+  intros Hr Hna Hnt Hp Hta Ho1 Ho2 Hrp H1 H2.
+  assert (HP : P0 base g x w) by (split; [apply (reachable_inv _ _ Hr)|split; assumption]).
+  destruct (call_P0 _ _ _ _ _ _ _ _ Hna Hnt Ho1 Hrp HP H1) as (Hna1 & HQ & evs1 & Hlog1 & Hterm1).
+  destruct (push_call_cases _ _ _ _ _ _ Ho2 Hna1 H2) as [(r & F)|(-> & r & R)].
+  - left. destruct HQ as [Hon|Hmid]; [eapply flush_on_wire; eauto|eapply flush_Pmid; eauto].
+  - destruct HQ as [Hon|Hmid]; [left; eapply read_on_wire; eauto|].
+    destruct (x_state x1) eqn:Es1;
+      try (left; apply (read_Pmid base g x1 w1 r x2 w2); [congruence|congruence|exact Hmid|exact R]).
+    (* the first call left the connection Terminated with the frame still parked: the transport ended *)
+    right. exists evs1. split; [exact Hlog1|].
+    destruct (Hterm1 Es1) as [?|[[Hs _]|?]]; [contradiction| |assumption].
+    destruct Hmid as (_ & _ & _ & f & Hf & _). congruence.
+Qed.
+
+(* --- a read()-only driver does not push a Close that sits in the write buffer --- *)
+Definition rr_cfg : config := mkConfig 131072 18446744073709551615 (Some 67108864) (Some 16777216) false.
+Definition rr_world : world :=
+  mkWorld [] [WrErr WouldBlock; WrAccept 1000; WrAccept 1000; WrAccept 1000; WrAccept 1000] [] [] [].
+Definition rr_ctx : ctx :=
+  match ctx_new Server [] rr_cfg with
+  | Some x => x
+  | None => mkCtx Server (codec_new []) Active None None false rr_cfg
+  end.
+Definition rr_state : list (op_result * N) * ctx * world := run_ops rr_ctx [OpClose None] rr_world.
+
+Lemma not_ended (evs : list event) :
+  forallb (fun e => match e with
+                    | EvRead RdEof | EvRead (RdErr ConnReset) | EvWriteErr _ ConnReset | EvWrite _ [] => false
+                    | _ => true end) evs = true ->
+  ~ transport_ended evs.
+Proof.
+  intros Hb He. unfold transport_ended in He. apply Exists_exists in He. destruct He as (e & Hin & He).
+  rewrite forallb_forall in Hb. specialize (Hb e Hin).
+  destruct e as [[bs| |[| | |]]|n [|b acc]|n [| | |]|f|f|n]; cbn in *; try discriminate; contradiction.
+Qed.
+
+Lemma eventually_sent_read_refuted :
+  let '(rs, x, w) := rr_state in
+  rs = [(ResUnit (RErr (EIo WouldBlock)), 2)] /\
+  reachable x w /\ x_state x = ClosedByUs /\
+  pend [] (frame_close None) x (w_log w) /\ c_out (x_codec x) = [136; 0] /\ x_additional x = None /\
+  transport_accepts x w /\ Forall (generous 1000) (w_wrs w) /\
+  let '(rs2, x2, w2) := run_ops x [OpRead; OpRead; OpRead] w in
+  wire (w_log w2) = [] /\ c_out (x_codec x2) = [136; 0] /\
+  ~ transport_ended (skipn (length (w_log w)) (w_log w2)) /\
+  ~ on_wire [] (frame_close None) x2 w2.
+Proof.
+  vm_compute rr_state. cbv iota beta.
+  split; [reflexivity|]. split.
+  { exists Server, [], rr_cfg, rr_ctx, rr_world, [OpClose None]. eexists.
+    split; [reflexivity|]. split; [reflexivity|]. vm_compute. reflexivity. }
+  split; [reflexivity|]. split.
+  { eexists. split; [vm_compute; reflexivity|]. right. eexists. split; [now left|reflexivity]. }
+  split; [reflexivity|]. split; [reflexivity|]. split.
+  { unfold transport_accepts. cbn [x_additional]. eexists. vm_compute. reflexivity. }
+  split.
+  { repeat constructor; eexists; (split; [reflexivity|]); vm_compute; discriminate. }
+  vm_compute run_ops. cbv iota beta.
+  split; [reflexivity|]. split; [reflexivity|]. split.
+  - apply not_ended. vm_compute. reflexivity.
+  - intros ((_ & Ho) & _). cbn in Ho. discriminate.
+Qed.
